@@ -482,14 +482,25 @@ func TestVerif_C07_Batch(t *testing.T) {
 			hx = hx[:600]
 		}
 		tr.Emit(verifkit.M{"ev": "input", "id": i, "kind": in.Kind, "family": in.Family, "class": in.Class, "wf": in.WF, "n": len(b),
-			"text": strings.ToValidUTF8(text, "�"), "hex": hx, "nops": len(rs)})
+			"text": c07Clean(text), "hex": hx, "nops": len(rs)})
 		for k, r := range rs {
 			nops++
-			tr.Emit(verifkit.M{"ev": "op", "id": i, "op": r.Op, "outcome": r.Out, "site": r.Site, "msg": c07Tail(strings.ToValidUTF8(r.Msg, "�"), 400),
+			tr.Emit(verifkit.M{"ev": "op", "id": i, "op": r.Op, "outcome": r.Out, "site": r.Site, "msg": c07Tail(c07Clean(r.Msg), 400),
 				"status": r.Status, "back": k + 1})
 		}
 	}
 	t.Logf("c07: %d inputs, %d operations, %d child processes", len(inputs), nops, children)
+}
+
+// c07Clean makes a text safe for the line-oriented trace tools: valid UTF-8 and none of the
+// Unicode line separators that JSON leaves unescaped (the exact bytes are in the hex field).
+func c07Clean(s string) string {
+	return strings.Map(func(r rune) rune {
+		if r == 0x85 || r == 0x2028 || r == 0x2029 {
+			return 0xFFFD
+		}
+		return r
+	}, strings.ToValidUTF8(s, "\uFFFD"))
 }
 
 func c07Tail(s string, n int) string {
